@@ -745,7 +745,16 @@ class LDAPFilter:
         filter = filter.strip()
         b_filter = filter.encode("utf-8", errors="surrogateescape")
         filter_view = memoryview(b_filter)
-        filter_obj, consumed = _unpack_filter(filter, filter_view, 0, len(b_filter))
+        try:
+            filter_obj, consumed = _unpack_filter(filter, filter_view, 0, len(b_filter))
+        except RecursionError:
+            raise FilterSyntaxError(
+                "Filter is nested too deeply to be parsed",
+                filter=filter,
+                offset=0,
+                length=len(b_filter),
+            ) from None
+
         if consumed < len(b_filter):
             raise FilterSyntaxError(
                 "Extra data found at filter end",
